@@ -19,7 +19,8 @@ import ScyllaVerif.Model.TabletsRefresh
 * `cs <op>;<op>;…` — one history on a real `ClusterState` (tablet keyspace `k0` with tables `t0`, `t1`):
     `P<peer>,<peer>…`             first: `ClusterState::new`; later: a metadata refresh (`new_updated`); a peer is
                                   `<id>[@<dc>[/<rack>]]`, its address is its position in the list → `P<ids whose Node object was kept>`
-    `L<t>:<first>:<last>:<reps>`  `ClusterState::update_tablets` for table `t<t>`
+    `L<t>:<first>:<last>:<reps>`  `ClusterState::update_tablets` with one tablet for table `t<t>`
+    `B<item>|<item>|…`            ONE `update_tablets` call with the whole batch, items `<t>:<first>:<last>:<reps>` in order
     `s<t>:<lo>:<hi>`              `replica_locator().replicas_for_token` for every token of `lo..=hi`, joined by `/`
     `d<t>:<token>@<dc>`           the same restricted to a datacenter
 * `payload <hex>` — `RawTablet::from_custom_payload` on the cell bytes.
@@ -337,6 +338,15 @@ def csScan (xs : List Tablet) : Nat → Int → List String
   | 0, _ => []
   | n + 1, tok => showReps ((replicasForToken xs (tokenNew tok)).getD []) :: csScan xs n (tok + 1)
 
+def csItem (cs : CState) (s : String) : Option RawItem :=
+  match s.splitOn ":" with
+  | [t, f, l, reps] =>
+    match csTable cs t, f.toInt?, l.toInt?, parseList "," parseRep reps with
+    | some _, some f, some l, some reps =>
+      if tokenNew f > tokenNew l then none else some (("k0", "t" ++ t), tokenNew f, tokenNew l, reps)
+    | _, _, _, _ => none
+  | _ => none
+
 def csOp (st : Option CState) (op : String) : Option (CState × String) :=
   match splitOp op with
   | none => none
@@ -357,16 +367,14 @@ def csOp (st : Option CState) (op : String) : Option (CState × String) :=
     else match st with
     | none => none
     | some cs =>
-      if c == 'L' then
-        match arg.splitOn ":" with
-        | [t, f, l, reps] =>
-          match csTable cs t, f.toInt?, l.toInt?, parseList "," parseRep reps with
-          | some _, some f, some l, some reps =>
-            if tokenNew f > tokenNew l then none else
-            let (cs', ok) := learn cs ("k0", "t" ++ t) (tokenNew f) (tokenNew l) reps
-            some (cs', if ok then "L" else "panic")
-          | _, _, _, _ => none
-        | _ => none
+      if c == 'L' || c == 'B' then
+        -- `L`: a batch of one; `B`: one `update_tablets` call with several tablets, `|`-separated
+        let items := if c == 'L' then [arg] else arg.splitOn "|"
+        match items.mapM (csItem cs) with
+        | some batch =>
+          let (cs', ok) := learnBatch cs batch
+          some (cs', if ok then String.singleton c else "panic")
+        | none => none
       else if c == 's' then
         match arg.splitOn ":" with
         | [t, lo, hi] =>
